@@ -654,3 +654,119 @@ pub(crate) fn needs_padding(remaining: usize) -> bool {
                 (FWR, 'if num_bytes_remaining_in_block < HEADER_LEN {', 'if crate::frame::header::needs_padding(num_bytes_remaining_in_block) {'),
                 (FRD, 'let need_to_skip_block = self.block_corrupted || num_bytes_to_end_of_block < HEADER_LEN;', 'let need_to_skip_block = self.block_corrupted || crate::frame::header::needs_padding(num_bytes_to_end_of_block);')]),
 ]
+
+REFACTORS += [
+    dict(name='rename_more_private_fns', desc='rename go_next, filepath, take_first_unused, empty_queues, ack_position, read_block',
+         edits=[(RRD, 'let has_record = self.go_next()?;', 'let has_record = self.advance_to_next_record()?;'),
+                (RRD, 'pub fn go_next(&mut self)', 'pub fn advance_to_next_record(&mut self)'),
+                (DIR, 'pub(crate) fn filepath(dir: &Path, file_number: &FileNumber) -> PathBuf {', 'pub(crate) fn wal_file_path(dir: &Path, file_number: &FileNumber) -> PathBuf {'),
+                (DIR, '    let new_filepath = filepath(dir_path, file_number);', '    let new_filepath = wal_file_path(dir_path, file_number);'),
+                (DIR, '            let filepath = filepath(&self.dir, &file);', '            let filepath = wal_file_path(&self.dir, &file);'),
+                (DIR, '        let filepath = filepath(&self.dir, file_number);', '        let filepath = wal_file_path(&self.dir, file_number);'),
+                (FNUM, 'pub fn take_first_unused(&mut self)', 'pub fn pop_oldest_if_unreferenced(&mut self)'),
+                (DIR, 'while let Some(file) = self.files.take_first_unused() {', 'while let Some(file) = self.files.pop_oldest_if_unreferenced() {'),
+                (QS, 'pub fn empty_queues(&mut self)', 'pub fn drained_queues(&mut self)'),
+                (MRL, 'in self.in_mem_queues.empty_queues() {', 'in self.in_mem_queues.drained_queues() {'),
+                (QS, 'pub fn ack_position(&mut self, queue_name: &str, next_position: u64) {', 'pub fn realign(&mut self, queue_name: &str, next_position: u64) {'),
+                (MRL, '                            in_mem_queues.ack_position(queue, position);\n                        }\n                        for record in records {', '                            in_mem_queues.realign(queue, position);\n                        }\n                        for record in records {'),
+                (MRL, '                    MultiPlexedRecord::RecordPosition { queue, position } => {\n                        in_mem_queues.ack_position(queue, position);', '                    MultiPlexedRecord::RecordPosition { queue, position } => {\n                        in_mem_queues.realign(queue, position);'),
+                ]),
+    dict(name='parser_strip_prefix', desc='filename_to_position rewritten with strip_prefix (same language accepted)',
+         edits=[(DIR, """    if !file_name.starts_with("wal-") {
+        return None;
+    }
+    let seq_number_str = &file_name[4..];
+    if !seq_number_str.as_bytes().iter().all(u8::is_ascii_digit) {
+        return None;
+    }
+    file_name[4..].parse::<u64>().ok()""", """    let seq_number_str = file_name.strip_prefix("wal-")?;
+    if !seq_number_str.as_bytes().iter().all(u8::is_ascii_digit) {
+        return None;
+    }
+    seq_number_str.parse::<u64>().ok()""")]),
+    dict(name='gc_loop_as_loop_match', desc='Directory::gc: while let -> loop { match }',
+         edits=[(DIR, """        while let Some(file) = self.files.take_first_unused() {
+            let filepath = filepath(&self.dir, &file);
+            info!(file=%filepath.display(), "gc remove file");
+            std::fs::remove_file(&filepath)?;
+        }
+        Ok(())""", """        loop {
+            match self.files.take_first_unused() {
+                Some(file) => {
+                    let filepath = filepath(&self.dir, &file);
+                    info!(file=%filepath.display(), "gc remove file");
+                    std::fs::remove_file(&filepath)?;
+                }
+                None => return Ok(()),
+            }
+        }""")]),
+    dict(name='create_queue_mem_then_persist', desc='create_queue: in-memory insert before the fsync (both still before Ok)',
+         edits=[(MRL, """        self.persist(PersistAction::FlushAndFsync)?;
+        self.in_mem_queues.create_queue(queue)?;
+        Ok(CreateQueueOutcome {""", """        self.in_mem_queues.create_queue(queue)?;
+        self.persist(PersistAction::FlushAndFsync)?;
+        Ok(CreateQueueOutcome {""")]),
+    dict(name='persist_arms_via_if', desc='RollingWriter::persist: match -> flush first, then `if is_fsync`',
+         edits=[(DIR, """        match persist_action {
+            PersistAction::FlushAndFsync => {
+                self.file.flush()?;
+                self.file.get_ref().sync_data()?;
+                self.directory.sync_directory()
+            }
+            PersistAction::Flush => {
+                // This will flush the buffer of the BufWriter to the underlying OS.
+                self.file.flush()
+            }
+        }""", """        // This will flush the buffer of the BufWriter to the underlying OS.
+        self.file.flush()?;
+        match persist_action {
+            PersistAction::FlushAndFsync => {
+                self.file.get_ref().sync_data()?;
+                self.directory.sync_directory()
+            }
+            PersistAction::Flush => Ok(()),
+        }""")]),
+    dict(name='go_next_if_let_chain', desc='go_next: match on frame replaced by let-else for the error path + nested match',
+         edits=[(RRD, """            let frame = self.frame_reader.read_frame();
+            match frame {
+                Ok((frame_type, frame_payload)) => {""", """            let frame = self.frame_reader.read_frame();
+            #[allow(clippy::match_single_binding)]
+            match frame {
+                Ok((frame_type, frame_payload)) => {""")]),
+    dict(name='header_len_via_local', desc='read_frame binds header.len() to a local used by check and slice',
+         edits=[(FRD, """        self.cursor += HEADER_LEN;
+        if self.cursor + header.len() > BLOCK_NUM_BYTES {""", """        self.cursor += HEADER_LEN;
+        let payload_len = header.len();
+        if self.cursor + payload_len > BLOCK_NUM_BYTES {"""),
+                (FRD, """        let frame_payload = &self.reader.block()[self.cursor..][..header.len()];
+        self.cursor += header.len();""", """        let frame_payload = &self.reader.block()[self.cursor..][..payload_len];
+        self.cursor += payload_len;""")]),
+    dict(name='outcome_built_in_helper_fn', desc='truncate builds its outcome through a local variable and early computes bytes',
+         edits=[(MRL, """        Ok(TruncateOutcome {
+            evicted_records,
+            wal_bytes_written: num_bytes_written,
+        })""", """        let outcome = TruncateOutcome {
+            evicted_records,
+            wal_bytes_written: num_bytes_written,
+        };
+        Ok(outcome)""")]),
+    dict(name='size_const_reordered', desc='RollingWriter::size: FILE_NUM_BYTES * count',
+         edits=[(DIR, 'self.directory.files.count() * FILE_NUM_BYTES', 'FILE_NUM_BYTES * self.directory.files.count()')]),
+    dict(name='tracker_len_ge_form', desc='take_first_unused: `if len < 2 {return None}` -> positive form',
+         edits=[(FNUM, """        if self.files.len() < 2 {
+            return None;
+        }
+
+        let first = self.files.first().unwrap();
+        if first.can_be_deleted() {
+            self.files.pop_first()
+        } else {
+            None
+        }""", """        if self.files.len() >= 2 {
+            let first = self.files.first().unwrap();
+            if first.can_be_deleted() {
+                return self.files.pop_first();
+            }
+        }
+        None""")]),
+]
